@@ -168,6 +168,109 @@ static std::string traceOne(const std::string& engine, const std::string& events
 	return out;
 }
 
+static Interpreter& makeInterp(const std::string& engine, const std::string& xml, Rec& rec) {
+	Interpreter& interp = *(new Interpreter(Interpreter::fromXML(xml, "")));
+	ActionLanguage al;
+	al.logger = Logger(std::shared_ptr<LoggerImpl>(new RecLogger(&rec)));
+	if (engine != "large")
+		al.microStepper = Factory::getInstance()->createMicroStepper(engine, (MicroStepCallbacks*)interp.getImpl().get());
+	interp.setActionLanguage(al);
+	RecMonitor* mon = new RecMonitor(&rec);
+	interp.addMonitor(mon);
+	return interp;
+}
+
+static std::string joinToks(const Rec& rec, size_t from = 0) {
+	std::string out;
+	for (size_t i = from; i < rec.toks.size(); i++) { if (out.size()) out += " "; out += rec.toks[i]; }
+	return out;
+}
+
+// serial: <engine>\t<chart>\t<prefix events>\t<continuation events>\t<hex xml>\t<hex xml of another document>
+//  -> A=<continuation trace of the original> || B=<continuation trace of the restored copy> || FOREIGN=<rejected|accepted> || SER=<ok|err:..>
+static std::string serialOne(const std::vector<std::string>& f) {
+	std::string xml, other;
+	if (f.size() != 6 || !uv::hexdec(f[4], xml) || !uv::hexdec(f[5], other)) return "bad-op";
+	const std::string& engine = f[0];
+	Rec recA, recB;
+	std::string ser, status = "ok", foreign = "-";
+	size_t fromA = 0, fromB = 0;
+	try {
+		Interpreter& a = makeInterp(engine, xml, recA);
+		a.step(0);
+		bool ok = runQuiescent(a, recA, 60);
+		std::vector<std::string> pre = f[2] == "-" ? std::vector<std::string>() : uv::split(f[2], ',');
+		for (size_t i = 0; i < pre.size() && ok; i++) {
+			a.receive(Event(pre[i], Event::EXTERNAL));
+			if (i + 1 < pre.size()) ok = runQuiescent(a, recA, 60);
+			else {
+				// the snapshot point: the first stable configuration after the last prefix event
+				for (int k = 0; k < 60; k++) {
+					InterpreterState s = a.step(0);
+					if (s == USCXML_MACROSTEPPED || s == USCXML_IDLE || s == USCXML_FINISHED) break;
+				}
+			}
+		}
+		if (!ok) return "DIVERGE";
+		try { ser = a.serialize(); } catch (Event e) { return "SER=err:" + e.name; }
+		// restored copy
+		Interpreter& b = makeInterp(engine, xml, recB);
+		try { b.deserialize(ser); } catch (Event e) { status = "err:" + e.name; }
+		// a foreign document must be rejected
+		{
+			Rec recC;
+			Interpreter& c = makeInterp(engine, other, recC);
+			try { c.deserialize(ser); foreign = "accepted"; } catch (Event e) { foreign = "rejected"; } catch (...) { foreign = "rejected"; }
+		}
+		fromA = recA.toks.size(); fromB = recB.toks.size();
+		std::vector<std::string> cont = f[3] == "-" ? std::vector<std::string>() : uv::split(f[3], ',');
+		bool okA = runQuiescent(a, recA, 60), okB = status == "ok" ? runQuiescent(b, recB, 60) : false;
+		for (const std::string& ev : cont) {
+			if (okA) { a.receive(Event(ev, Event::EXTERNAL)); okA = runQuiescent(a, recA, 60); }
+			if (okB) { b.receive(Event(ev, Event::EXTERNAL)); okB = runQuiescent(b, recB, 60); }
+		}
+		// what a second snapshot says
+		std::string serA, serB;
+		try { serA = a.serialize(); } catch (...) { serA = "ERR"; }
+		try { serB = b.serialize(); } catch (...) { serB = "ERR"; }
+		recA.add(std::string("reser:") + (serA == serB ? "same" : "differs"));
+		recB.add(std::string("reser:") + (serA == serB ? "same" : "differs"));
+	} catch (Event e) {
+		return "EXC:" + e.name;
+	} catch (std::exception& e) {
+		return std::string("EXC:std:") + e.what();
+	}
+	return "A=" + joinToks(recA, fromA) + " || B=" + joinToks(recB, fromB) + " || FOREIGN=" + foreign + " || SER=" + status;
+}
+
+int cmd_serial(int argc, char** argv) {
+	std::string line;
+	while (std::getline(std::cin, line)) {
+		std::vector<std::string> f = uv::split(line, '\t');
+		int fds[2];
+		if (pipe(fds)) { { std::ostringstream _o; _o << "bad-pipe"; uv::putline(_o.str()); } continue; }
+		fflush(uv::out);
+		pid_t pid = fork();
+		if (pid == 0) {
+			close(fds[0]);
+			alarm(30);
+			std::string out = serialOne(f);
+			size_t off = 0;
+			while (off < out.size()) { ssize_t n = write(fds[1], out.data() + off, out.size() - off); if (n <= 0) break; off += n; }
+			close(fds[1]);
+			_exit(0);
+		}
+		close(fds[1]);
+		std::string out; char buf[65536]; ssize_t n;
+		while ((n = read(fds[0], buf, sizeof buf)) > 0) out.append(buf, n);
+		close(fds[0]);
+		int status = 0; waitpid(pid, &status, 0);
+		if (WIFSIGNALED(status)) out += (out.size() ? " " : "") + std::string("CRASH:") + std::to_string(WTERMSIG(status));
+		uv::putline(out);
+	}
+	return 0;
+}
+
 // each request runs in a forked child so that a crash or hang is a result, not the end of the batch
 int cmd_trace(int argc, char** argv) {
 	int cap = 60;
